@@ -37,13 +37,14 @@ Proof.
   intros V. pose proof (valid_sub_facts s V) as F.
   pose proof (tr_num_nonzero_byte_values_eq s) as Hnz. pose proof (tr_num_byte_values_eq s) as Hn.
   unfold tr_IDSubspace_split, split.
-  destruct (k <=? 0) eqn:K0; [reflexivity|].
-  destruct (k =? 1) eqn:K1; [reflexivity|].
-  unfold PySem.bind at 1. rewrite Hnz by exact V.
-  destruct (Z.of_N (num_nonzero_byte_values s) <? k) eqn:K2; [reflexivity|].
-  unfold PySem.bind at 1. rewrite Hnz by exact V.
-  unfold PySem.bind at 1. rewrite Hn by exact V.
-  cbv zeta. unfold py_floordiv.
+  (* the guards and the calls of num_nonzero_byte_values / num_byte_values, in whatever order and however often the source
+     makes them (a rewrite may hoist them into a local) *)
+  repeat first
+    [ progress cbv zeta
+    | progress (unfold PySem.bind at 1; rewrite Hnz by exact V)
+    | progress (unfold PySem.bind at 1; rewrite Hn by exact V)
+    | match goal with |- (if ?c then _ else _) ?d = _ => destruct c eqn:?; [reflexivity|] end ].
+  unfold py_floordiv.
   set (size := Z.of_N (num_nonzero_byte_values s) / k).
   set (rem := Z.of_N (num_byte_values s) - size * k).
   unfold PySem.bind at 1. unfold py_for_range.
